@@ -5,7 +5,7 @@
 use super::*;
 use std::io::{Read, Write};
 use tiny_http_rt::{Header, Response, Server, StatusCode};
-use verif_harness::connrun::{action_enc, mask_dates, Action, ConnCase, FailingReader, Finish, Mode, RespSpec, WOp};
+use verif_harness::connrun::{action_enc, mask_dates, Action, ConnCase, PRE_DELAY, FailingReader, Finish, Mode, RespSpec, WOp};
 use verif_harness::hex;
 use verif_harness::respgen::PieceReader;
 
@@ -40,6 +40,9 @@ pub struct CtlCase {
     pub vanish_first: usize,
     /// what each vanishing client sends before it resets (empty: nothing)
     pub vanish_data: Vec<u8>,
+    /// ordinary clients that come first, one after the other: each sends these bytes (an unfinished
+    /// head) and closes
+    pub prelude: Vec<Vec<u8>>,
     /// the client pauses for that many virtual µs once it has sent the first `offset` bytes
     pub gaps: Vec<(usize, u64)>,
     /// report the handlers' event sequence (`events=`) for the trace acceptance on `Lts.Par`
@@ -120,6 +123,10 @@ fn ev(kind: char, idx: usize) {
 /// first half of a handler: ask for the body and read what the script says
 fn read_phase(rq: &mut tiny_http_rt::Request, a: &Action, idx: usize, log: &Log) {
     let mut end: &'static str = "none";
+    if a.delay_ms >= PRE_DELAY {
+        // a busy application: it asks for the body only a while after it got the request
+        stdx::thread::sleep(Duration::from_millis(a.delay_ms - PRE_DELAY));
+    }
     ev('b', idx);
     for _ in 1..a.as_reader {
         let _ = rq.as_reader();
@@ -163,7 +170,7 @@ fn read_phase(rq: &mut tiny_http_rt::Request, a: &Action, idx: usize, log: &Log)
 /// second half: answer / drop / raw writer / upgrade
 fn finish_phase(rq: tiny_http_rt::Request, a: &Action, idx: usize, log: &Log) {
     let res = std::panic::catch_unwind(std::panic::AssertUnwindSafe(|| {
-        if a.delay_ms > 0 {
+        if a.delay_ms > 0 && a.delay_ms < PRE_DELAY {
             stdx::thread::sleep(Duration::from_millis(a.delay_ms));
         }
         ev('f', idx);
@@ -263,6 +270,7 @@ pub fn execute(c: &CtlCase, cfg: &Config) -> Outcome {
     let write_err = c.write_err;
     let vanish_first = c.vanish_first;
     let vanish_data = c.vanish_data.clone();
+    let prelude = c.prelude.clone();
     let gaps = c.gaps.clone();
     EVENTS.lock().unwrap().clear();
     let (out, rep) = sched::run(cfg, move || {
@@ -274,6 +282,14 @@ pub fn execute(c: &CtlCase, cfg: &Config) -> Outcome {
             let _ = verif_rt::net::TcpStream::connect_send_and_vanish(addr, &vanish_data);
         }
         if vanish_first > 0 {
+            sched::settle(1_000_000_000);
+        }
+        for p in &prelude {
+            if let Ok(mut s) = verif_rt::net::TcpStream::connect(addr) {
+                let _ = s.write_all(p);
+                sched::settle(1_000_000_000);
+                drop(s);
+            }
             sched::settle(1_000_000_000);
         }
         let client = match verif_rt::net::TcpStream::connect(addr) {
